@@ -27,12 +27,14 @@ def _start_match(string, like_name):
 
 
 def _fuzzy_match(string, like_name):
-    if len(like_name) <= 1:
-        return like_name in string
-    pos = string.find(like_name[0])
-    if pos >= 0:
-        return _fuzzy_match(string[pos + 1:], like_name[1:])
-    return False
+    # A loop and not a recursion, a name can be longer than the stack is deep.
+    while len(like_name) > 1:
+        pos = string.find(like_name[0])
+        if pos < 0:
+            return False
+        string = string[pos + 1:]
+        like_name = like_name[1:]
+    return like_name in string
 
 
 def match(string, like_name, fuzzy=False):
